@@ -886,7 +886,23 @@ impl Bgi {
         }
     }
 
-    fn draw_line(&mut self, x0: i32, y0: i32, x1: i32, y1: i32, color: u8) {
+    fn draw_line(&mut self, mut x0: i32, mut y0: i32, mut x1: i32, mut y1: i32, color: u8) {
+        // button frames are horizontal and vertical lines, possibly far larger than the screen: only the part
+        // inside the viewport (put_pixel includes its right and bottom edge) has pixels to draw
+        let (left, top, right, bottom) = (self.viewport.left(), self.viewport.top(), self.viewport.right(), self.viewport.bottom());
+        if y0 == y1 {
+            if y0 < top || y0 > bottom || x0.max(x1) < left || x0.min(x1) > right {
+                return;
+            }
+            x0 = x0.clamp(left, right);
+            x1 = x1.clamp(left, right);
+        } else if x0 == x1 {
+            if x0 < left || x0 > right || y0.max(y1) < top || y0.min(y1) > bottom {
+                return;
+            }
+            y0 = y0.clamp(top, bottom);
+            y1 = y1.clamp(top, bottom);
+        }
         let dx = (x0 - x1).abs();
         let dy = (y0 - y1).abs();
 
@@ -1846,8 +1862,9 @@ impl Bgi {
             }
         }
 
-        for y in y1..y2 {
-            for x in x1..x2 {
+        // put_pixel draws inside the viewport (edges included) only: do not visit the rest of a huge button
+        for y in y1.max(self.viewport.top())..y2.min(self.viewport.bottom() + 1) {
+            for x in x1.max(self.viewport.left())..x2.min(self.viewport.right() + 1) {
                 self.put_pixel(x, y, su);
             }
         }
